@@ -170,7 +170,9 @@ def run(ctx):
             ('encode', 'fun p : enc * message => ser_encode (fst p) (snd p)', enc_cases),
             ('decode', 'fun p : enc * list Z => ser_decode (fst p) (snd p)', dec_cases),
         ):
-            bad, errs = core.run_cases('C03', name, IMPORTS, fn, cases, shard=150)
+            # a damaged PDU may name a text codec of the standard library that the model does not cover (data_coding 5, 6, 7, 9, 10, 13, 14):
+            # the model then answers Err EXN_Unmodelled = [2; 99] and the case is not compared
+            bad, errs = core.run_cases('C03', name, IMPORTS, fn, cases, shard=150, abstain='[2; 99]' if name == 'decode' else None)
             for fnm, out in errs:
                 ctx.broken.append(f'model evaluation failed ({fnm}): {out[-600:]}')
             for i in bad[:6]:
